@@ -155,7 +155,7 @@ class Impl:
             step.delete_hash()
             step.set_state(StepState.PENDING)
         elif name == "validate_pending":
-            self.node(("step", op[1])).set_state(StepState.PENDING)
+            self.node(("step", op[1])).set_state(StepState.PENDING, True)
         elif name == "mark_step_pending":
             wf.mark_step_pending(self.node(("step", op[1])))
         elif name == "delete_detached":
@@ -233,6 +233,40 @@ class Impl:
         return self.db._con.execute(sql, args).fetchall() if hasattr(self.db, "_con") else None
 
 
+def dependency_cycle(d):
+    """Independent check on a dump of the real database: the dependency relation over ALL rows
+    (attached or not: a detached step keeps its edges and is revived by a recycle without any
+    cycle check) is acyclic.  Iterative DFS with colours; returns a cycle as text or None."""
+    succ = {}
+    for a, b, _ in d["deps"]:
+        succ.setdefault(a, []).append(b)
+    colour = {}
+    for root in sorted(succ):
+        if colour.get(root):
+            continue
+        stack = [(root, iter(sorted(succ.get(root, ()))))]
+        colour[root] = 1
+        path = [root]
+        while stack:
+            node, it = stack[-1]
+            nxt = next(it, None)
+            if nxt is None:
+                colour[node] = 2
+                stack.pop()
+                path.pop()
+                continue
+            c = colour.get(nxt, 0)
+            if c == 1:
+                cyc = path[path.index(nxt):] + [nxt]
+                return " -> ".join(f"{k[0]}:{k[1]}" for k in cyc)
+            if c == 0:
+                colour[nxt] = 1
+                path.append(nxt)
+                stack.append((nxt, iter(sorted(succ.get(nxt, ())))))
+    return None
+
+
+
 # ---------------------------------------------------------------------------------------------
 # Online generator
 # ---------------------------------------------------------------------------------------------
@@ -268,6 +302,10 @@ class Gen:
         d = await self.snapshot()
         self.trace.append((op, outcome, detail, d))
         self.opcount[op[0] + ":" + outcome] = self.opcount.get(op[0] + ":" + outcome, 0) + 1
+        if dependency_cycle(d):
+            # the stored graph is cyclic (reported by the oracle): nothing after this point is
+            # meaningful and recursive statements may not terminate; end the trace here
+            self.length = min(self.length, len(self.trace))
         return outcome
 
     def running(self):
@@ -455,11 +493,151 @@ class Gen:
             self.jobs.pop(plan, None)
             await self.record(("exec_end", plan, (), "SUCCEEDED", (), True, False))
 
+    # -- families of steps with producer/consumer chains ---------------------------------------
+    PLAIN = [f for f in FILES if "/" not in f]
+
+    async def family(self, creator):
+        """The running step `creator` defines a chain of 2-3 steps: each consumes an output of its
+        predecessor (sometimes also of the one before) and produces one or two files."""
+        rng = self.rng
+        k = rng.choice([2, 2, 3])
+        names = rng.sample([s for s in STEPS if s != creator], k)
+        pool = rng.sample(self.PLAIN, min(len(self.PLAIN), k + 2))
+        outs = [(pool[i],) for i in range(k)]
+        if rng.random() < 0.3:
+            outs[-1] = outs[-1] + (pool[k],)
+        fam = []
+        for i, lab in enumerate(names):
+            inp = ()
+            if i > 0:
+                inp = (outs[i - 1][0],)
+                if i > 1 and rng.random() < 0.4:
+                    inp = tuple(sorted(inp + (outs[i - 2][0],)))
+            elif rng.random() < 0.3:
+                inp = ("plan.py",)
+            spec = (inp, (), tuple(sorted(outs[i])), (), "DEFAULT")
+            if await self.record(("define_step", ("step", creator), lab, *spec)) == "ok":
+                self.defs[lab] = spec
+                fam.append(lab)
+        return fam
+
+    def detached_family(self, label):
+        return sorted(l for l in self.defs
+                      if l != label and l in self.sstate and self.detached.get(("step", l), False))
+
+    def changed_spec(self, lab, fam):
+        """A new specification of `lab` drawn from the files of the (detached) family: inputs taken
+        from the outputs of the other members (a former consumer's output becomes an input of its
+        former producer), outputs taken from their former inputs, or both (roles swapped)."""
+        rng = self.rng
+        inp, env, out, vol, need = self.defs[lab]
+        others_out = sorted({o for m in fam if m != lab for o in self.defs[m][2]})
+        others_inp = sorted({i for m in fam if m != lab for i in self.defs[m][0] if i != "plan.py"})
+        mode = rng.choice(["inputs", "inputs", "swap", "outputs", "more-inputs"])
+        if mode in ("inputs", "swap") and others_out:
+            inp = self.subset(others_out, 1, 2)
+        elif mode == "more-inputs" and others_out:
+            inp = tuple(sorted(set(inp) | set(self.subset(others_out, 1, 1))))
+        if mode in ("outputs", "swap"):
+            cand = sorted((set(others_inp) | set(out)) - set(inp))
+            if cand:
+                out = self.subset(cand, 1, 2)
+        return (tuple(inp), env, tuple(out), vol, need)
+
+    async def g_family(self, label):
+        await self.family(label)
+
+    async def g_reshuffle(self, label):
+        """After the rerun of a creator detached a family of steps (their dependency edges stay),
+        the running step declares them again in a random order, one or two of them with a changed
+        specification drawn from the files of the family, the others unchanged (full recycle)."""
+        rng = self.rng
+        fam = self.detached_family(label)
+        if not fam:
+            return
+        order = fam[:]
+        rng.shuffle(order)
+        changed = set(rng.sample(fam, rng.randint(1, min(2, len(fam)))))
+        if rng.random() < 0.3:
+            order = order[:rng.randint(1, len(order))]      # the rest stays detached for now
+        for lab in order:
+            spec = self.changed_spec(lab, fam) if lab in changed else self.defs[lab]
+            if await self.record(("define_step", ("step", label), lab, *spec)) == "ok":
+                self.defs[lab] = spec
+
+    def downstream_detached_outputs(self, label):
+        """Outputs of detached steps that are (indirect) consumers of `label`, over ALL dependency
+        rows (a detached step keeps its edges)."""
+        succ = {}
+        for a, b, _ in self.d["deps"]:
+            succ.setdefault(a, []).append(b)
+        seen, stack = set(), [("step", label)]
+        while stack:
+            x = stack.pop()
+            for y in succ.get(x, ()):
+                if y not in seen:
+                    seen.add(y)
+                    stack.append(y)
+        res = set()
+        for a, b, _ in self.d["deps"]:
+            if a[0] == "step" and b[0] == "file" and b in seen and a != ("step", label) \
+                    and self.detached.get(a, True):
+                res.add(b[1])
+        return sorted(res)
+
+    async def g_amenddown(self, label):
+        """amend_step with inputs chosen among the outputs of detached steps downstream of the
+        amending step (closing a cycle through a detached step must be rejected)."""
+        cand = self.downstream_detached_outputs(label)
+        if not cand:
+            return await self.g_amend(label)
+        await self.record(("amend_step", label, self.subset(cand, 1, 2), (), (), ()))
+
+    async def scenario_family(self):
+        """The plan defines a chain family, (some of) its members run, the plan is rerun (the family
+        is detached with its edges intact) and declares the family again: reshuffled with changed
+        specifications, or one member unchanged which then amends its inputs."""
+        rng = self.rng
+        plan = "./plan.py"
+        if not await self.run_to_running(plan):
+            return
+        fam = await self.family(plan)
+        if not fam:
+            return
+        self.jobs.pop(plan, None)
+        await self.record(("exec_end", plan, (), "SUCCEEDED", (), True, False))
+        for lab in fam:
+            if rng.random() < 0.5:
+                if not await self.run_to_running(lab):
+                    break
+                self.jobs.pop(lab, None)
+                await self.record(("exec_end", lab, (), "SUCCEEDED", self.success_hashes(lab), True, False))
+        if rng.random() < 0.5:
+            await self.record(("mark_step_pending", plan))
+        else:
+            await self.record(("update_hashes", "EXTERNAL", (("plan.py", self.newhash()),)))
+        if not await self.run_to_running(plan):
+            return
+        if rng.random() < 0.7:
+            await self.g_reshuffle(plan)
+            if rng.random() < 0.5:
+                await self.g_reshuffle(plan)            # what is still detached
+        else:
+            first = fam[0]
+            await self.record(("define_step", ("step", plan), first, *self.defs[first]))
+            self.jobs.pop(plan, None)
+            await self.record(("exec_end", plan, (), "SUCCEEDED", (), True, False))
+            if await self.run_to_running(first):
+                await self.g_amenddown(first)
+
     async def run(self):
         await self.boot()
         rng = self.rng
-        if rng.random() < 0.6:
+        r0 = rng.random()
+        if r0 < 0.4:
             await self.scenario()
+        elif r0 < 0.75:
+            await self.scenario_family()
         while len(self.trace) < self.length:
             running = self.running()
             run0 = [l for l, p in self.jobs.items() if p == "run0"]
@@ -472,9 +650,10 @@ class Gen:
                 r = [(l,) for l in running]
                 cats += [("declare", 6, r), ("define", 16, r), ("amend", 8, r), ("end", 10, r),
                          ("hold", 2, r), ("release", 2, r), ("tree", 5, r), ("treefiles", 3, r),
-                         ("treeforeign", 2, r)]
+                         ("treeforeign", 2, r), ("family", 3, r), ("amenddown", 3, r)]
                 if any(self.detached.get(("step", l), False) and l in self.sstate for l in self.defs):
                     cats.append(("redefine", 12, r))
+                    cats.append(("reshuffle", 8, r))
             if checks:
                 cats.append(("skip", 12, [(l,) for l in checks]))
             if validates:
